@@ -11,6 +11,7 @@ import (
 	"net/http"
 	"net/http/httptest"
 	"regexp"
+	"runtime"
 	"strconv"
 	"strings"
 	"sync"
@@ -111,7 +112,9 @@ func genActions(r *Rng, n int, panicPct int) []Action {
 			out = append(out, Action{4, r.Pick([]string{"k1", "k2"}), ""})
 		default:
 			if r.Pct(panicPct) {
-				out = append(out, Action{5, r.Pick([]string{"boom", "bang", "boom", abortText}), ""})
+				// (third field: where the panic starts - in the script itself, or inside Request.ReadEntity of a plain /
+				// gzip-encoded body; scripts without a *Request just panic)
+				out = append(out, Action{5, r.Pick([]string{"boom", "bang", "boom", abortText}), r.Pick([]string{"", "", "", "entity", "entity-gzip"})})
 			}
 		}
 	}
@@ -299,27 +302,41 @@ type ledger struct {
 	inner              restful.CompressorProvider
 	held               map[interface{}]bool
 	acq, rel, dbl, unk int
+	writersOnly        bool            // count acquisitions and releases of writers only (readers are still watched for double use)
+	nested             map[string]bool // goroutines that are inside the provider's AcquireGzipReader
 }
 
 func newLedger(inner restful.CompressorProvider) *ledger {
 	return &ledger{inner: inner, held: map[interface{}]bool{}}
 }
 func (l *ledger) take(x interface{}) {
+	g := ""
+	if l.writersOnly {
+		g = goroutineID()
+	}
 	l.mu.Lock()
 	if l.held[x] {
 		l.dbl++ // handed out while still held
 	}
 	l.held[x] = true
-	l.acq++
+	if !l.nested[g] {
+		l.acq++
+	}
 	l.mu.Unlock()
 }
 func (l *ledger) give(x interface{}) {
+	g := ""
+	if l.writersOnly {
+		g = goroutineID()
+	}
 	l.mu.Lock()
 	if !l.held[x] {
 		l.unk++ // released twice or never acquired
 	}
 	delete(l.held, x)
-	l.rel++
+	if !l.nested[g] {
+		l.rel++
+	}
 	l.mu.Unlock()
 }
 func (l *ledger) AcquireGzipWriter() *gzip.Writer {
@@ -329,11 +346,45 @@ func (l *ledger) AcquireGzipWriter() *gzip.Writer {
 }
 func (l *ledger) ReleaseGzipWriter(w *gzip.Writer) { l.give(w); l.inner.ReleaseGzipWriter(w) }
 func (l *ledger) AcquireGzipReader() *gzip.Reader {
+	if l.writersOnly {
+		// making a new reader, the providers borrow a WRITER from the current provider for a moment (newGzipReader):
+		// that one is the provider's own business, not a response's
+		g := goroutineID()
+		l.mu.Lock()
+		if l.nested == nil {
+			l.nested = map[string]bool{}
+		}
+		l.nested[g] = true
+		l.mu.Unlock()
+		defer func() {
+			l.mu.Lock()
+			delete(l.nested, g)
+			l.mu.Unlock()
+		}()
+	}
 	w := l.inner.AcquireGzipReader()
-	l.take(w)
+	l.take(w) // (not counted in writers-only mode: this goroutine is marked)
 	return w
 }
-func (l *ledger) ReleaseGzipReader(w *gzip.Reader) { l.give(w); l.inner.ReleaseGzipReader(w) }
+
+func goroutineID() string {
+	var buf [64]byte
+	n := runtime.Stack(buf[:], false)
+	f := strings.Fields(string(buf[:n])) // "goroutine 123 [running]:"
+	if len(f) > 1 {
+		return f[1]
+	}
+	return ""
+}
+func (l *ledger) ReleaseGzipReader(w *gzip.Reader) {
+	l.give(w)
+	if l.writersOnly {
+		l.mu.Lock()
+		l.rel--
+		l.mu.Unlock()
+	}
+	l.inner.ReleaseGzipReader(w)
+}
 func (l *ledger) AcquireZlibWriter() *zlib.Writer {
 	w := l.inner.AcquireZlibWriter()
 	l.take(w)
@@ -381,7 +432,11 @@ func runActions(l []Action, rq *restful.Request, rp *restful.Response, lg *reqLo
 			}
 			lg.add("see:" + a.A + "=" + v)
 		case 5:
-			panicWith(a.A)
+			if a.B != "" {
+				readPanickingEntity(rq, a.A, a.B == "entity-gzip") // panics from inside ReadEntity - if all is well
+			} else {
+				panicWith(a.A)
+			}
 		case 6:
 			rp.Header().Del(a.A)
 		case 7:
@@ -390,6 +445,30 @@ func runActions(l []Action, rq *restful.Request, rp *restful.Response, lg *reqLo
 			rp.WriteAsJson(entityValue)
 		}
 	}
+}
+
+// user code whose panic starts inside Request.ReadEntity: the handler gives the request a JSON body (gzip-encoded and
+// declared so, or plain) and reads it into a value whose UnmarshalJSON panics. For the framework this is a panic of
+// the route function like any other.
+type panicky struct{ msg string }
+
+func (p *panicky) UnmarshalJSON([]byte) error { panicWith(p.msg); return nil }
+
+func readPanickingEntity(rq *restful.Request, msg string, gz bool) {
+	body := []byte(`{"a":1}`)
+	if gz {
+		var b bytes.Buffer
+		zw := gzip.NewWriter(&b)
+		zw.Write(body)
+		zw.Close()
+		body = b.Bytes()
+		rq.Request.Header.Set("Content-Encoding", "gzip")
+	} else {
+		rq.Request.Header.Del("Content-Encoding")
+	}
+	rq.Request.Header.Set("Content-Type", "application/json")
+	rq.Request.Body = ioutil.NopCloser(bytes.NewReader(body))
+	rq.ReadEntity(&panicky{msg})
 }
 
 // the one value scripts write as an entity, and its two renderings (computed with encoding/json here: what a Response
@@ -597,8 +676,21 @@ func buildDisp(cfg Sx, env *dispEnv) *restful.Container {
 				b.Filter(mkFilter(f, env))
 			}
 			full := strings.TrimRight(ws.RootPath(), "/") + "/" + strings.TrimLeft(rs.Rel, "/")
+			b.Metadata("limits", map[string]interface{}{"max": 10})
 			b.To(func(rq *restful.Request, rp *restful.Response) {
 				lg := env.logOf(rq.Request)
+				// the metadata a handler is given is a copy ("Returns a copy"): what it does to it stays with this request
+				if sr := rq.SelectedRoute(); sr == nil {
+					// (a filter passed on a new Request wrapper: no selected route on it)
+				} else if md := sr.Metadata(); md != nil {
+					if lim, ok := md["limits"].(map[string]interface{}); ok {
+						if lim["max"] != 10 {
+							lg.add("metadata-of-the-route-was-changed-by-another-request")
+						}
+						lim["max"] = 99
+					}
+					md["extra"] = "x"
+				}
 				ks := []string{}
 				for k := range rq.PathParameters() {
 					ks = append(ks, k)
@@ -626,6 +718,17 @@ func buildDisp(cfg Sx, env *dispEnv) *restful.Container {
 			defer func() { recover() }()
 			c.Add(ws)
 		}()
+		// user code fiddling with the COPIES of the routes it is handed: the registered routes are not its to change
+		for _, rt := range ws.Routes() {
+			flip := true
+			for _, rs := range sv.Routes {
+				if concatPathGo(sv.Root, rs.Rel) == rt.Path && rs.Method == rt.Method && len(rs.Enc) > 0 {
+					flip = !rs.Enc[0]
+				}
+			}
+			rt.EnableContentEncoding(flip)
+			rt.Method, rt.Path = "ZZ", "/zz-not-this"
+		}
 	}
 	if lateContainerFilters {
 		for _, f := range cfs {
@@ -780,6 +883,7 @@ func runDisp(raw Sx) (Sx, Sx) {
 		inner = restful.NewBoundedCachedCompressors(capn, capn)
 	}
 	ld := newLedger(inner)
+	ld.writersOnly = true
 	old := restful.CurrentCompressorProvider()
 	restful.SetCompressorProvider(ld)
 	defer restful.SetCompressorProvider(old)
